@@ -11,11 +11,19 @@ def run_config(chk, tier, cfgname):
                 "queries never touch the value (header accessors only); S5: a successful upgrade is never followed "
                 "by destruction in the running sweep.")
     chk.not_decided += ["'always succeeds for a strongly reachable target' needs the tri-colour theorem (C01)",
-                        "survival of stored upgrades over later cycles (history property)"]
+                        "survival of stored upgrades over later cycles beyond the explored bound (the barrier rows for a "
+                        "weakly marked child and the heap exploration's upgrade-and-store operation decide the step)"]
     for t in ("weak_upgrade", "upgrade", "weak_is_dropped", "trace_weak", "forward_barrier_weak",
               "backward_barrier_weak", "weak_is_dead"):
         typestate.apply(chk, t + "-table", t, aspects=("safety", "weak", "once", "overmark"))
     typestate.apply(chk, "sweep-weak-rows", "sweep_one", only=lambda r: r.pre.get("cursor") in ("WW", "W"), aspects=("weak", "once"))
+    # "the result may be used and stored like any other Gc": the target of a successful upgrade during marking is
+    # weakly marked (WhiteWeak) or still White; the rows of the strong barriers and of the sanctioned adoption paths
+    # with such a child are this property's store-after-upgrade clause (the parent must not stay Black over it)
+    after_upgrade = lambda r: ":WW:" in str(r.pre.get("child", "")) or r.pre.get("C") == "WW"
+    for t in ("backward_barrier", "forward_barrier"):
+        typestate.apply(chk, "store-after-upgrade:" + t, t, only=after_upgrade, aspects=("safety",))
+    typestate.apply(chk, "store-after-upgrade:adoption-paths", "adopt", only=after_upgrade, aspects=("safety",))
     typestate.report_automaton(chk, ["S5", "S6", "S1w"])
     prog.edges()
     for q in ("gc_weak::GcWeak::upgrade", "gc_weak::GcWeak::is_dropped", "gc_weak::GcWeak::is_dead",
